@@ -32,9 +32,10 @@ class C06(object):
             "the Distribution form; TV, BC, Hellinger, cross / relative entropy, Chernoff, categorical EMD and the "
             "two-argument JSD on the first two vectors. Every pair / restricted case also runs f_divergence for f in "
             "{t log t, -log t, |t-1|/2, (t-1)^2, (sqrt t - 1)^2, 4/(1-a^2)(1 - t^((1+a)/2))} (also with rvs) against "
-            "sum_x q f(p/q) over the labels, >= 0 and 0 on (p,p); not judged where f_divergence is known to drop terms: "
-            "outcomes of the second support outside the first when f(0) != 0, and of the first outside the second when "
-            "lim f(t)/t != 0. Every emd case also hands over explicit cost matrices between the stored outcomes "
+            "sum_x q f(p/q) over the labels, >= 0 and 0 on (p,p); where f_divergence is known to drop terms (outcomes of "
+            "the second support outside the first when f(0) != 0, of the first outside the second when lim f(t)/t != 0) "
+            "the call is compared with the full textbook value (+inf included) LAST, only when nothing else of the case "
+            "failed, under the site of the known finding; one fixed pair of that class closes every run. Every emd case also hands over explicit cost matrices between the stored outcomes "
             "(3[i != j], |x-y|, (x-y)^2 for labels placed on a line): optimum = 3 TV resp. the monotone coupling, exact. "
             "Kind `condmaxcorr`: maximum_correlation with crvs on exact tables P[x][y][z] (1..3 symbols each; random, "
             "sparse, conditionally independent, Z independent of (X,Y), X = Y in one slice, constant Z, a z of probability "
@@ -107,6 +108,9 @@ class C06(object):
         # conditional maximum correlation (crvs given); appended last for the same reason
         for _ in range(70 if tier == 'quick' else 5000):
             yield self.gen_condmaxcorr(rng)
+        # one fixed pair of the input class of the known f_divergence finding (P = {0: 1/4, 1: 3/4} inside
+        # Q = {0: 1/4, 1: 1/4, 2: 1/2}), so that every run meets it whatever the seed
+        yield self.fixed_support_mismatch_pair()
 
     def full_space(self, a, b):
         alph = [sorted(set(x) | set(y)) for x, y in zip(a['alphabets'], b['alphabets'])]
@@ -202,6 +206,14 @@ class C06(object):
             P = [pv[i * ny:(i + 1) * ny] for i in range(nx)]
         return {'kind': 'maxcorr', 'klass': klass, 'P': [[str(v) for v in row] for row in P], 'style': style,
                 'explicit': rng.random() < 0.3, 'dense': rng.random() < 0.5}
+
+    @staticmethod
+    def fixed_support_mismatch_pair():
+        mk = lambda outs, pmf: {'klass': 'str', 'n': 1, 'alphabets': [sorted(o[0] for o in outs)], 'outs': outs, 'pmf': pmf,
+                                'space': None, 'base': 'linear', 'sparse': True, 'trim': True, 'names': None,
+                                'style': 'dyadic', 'spacekind': 'none'}
+        return {'kind': 'pair', 'a': mk([[0], [1]], ['1/4', '3/4']), 'b': mk([[0], [1], [2]], ['1/4', '1/4', '1/2']),
+                'rel': 'nested', 'alpha': 0.5}
 
     CSTYLES = ['random', 'random', 'sparse', 'cond-independent', 'z-independent', 'slice-deterministic', 'const-z', 'empty-slice']
 
@@ -317,7 +329,7 @@ class C06(object):
             ('alpha', lambda t: c * (1.0 - np.power(t, e)), c, 0.0),        # 4/(1-a^2) (1 - t^((1+a)/2)), a = alpha if |alpha| < 1 else 1/2
         ]
 
-    def fdiv_judge(self, D, da, db, ta, tb, alpha, r, drv=None, rvs=None):
+    def fdiv_judge(self, D, da, db, ta, tb, alpha, r, drv=None, rvs=None, defer=None):
         """f_divergence(da, db, f[, rvs]) against the definition evaluated on the exact tables ta, tb (those of the
         marginals when rvs is given).  Returns False when an oracle failure was recorded."""
         keys = list(ta) + [k for k in tb if k not in ta]
@@ -328,15 +340,19 @@ class C06(object):
         where = '' if rvs is None else ' (rvs=%s)' % (rvs,)
         out = {}
         for name, f, f0, slope in self.fdiv_menu(alpha):
-            # KNOWN DEVIATION, not judged (reported, dit not changed): f_divergence sums q f(p/q) over the outcomes
+            # KNOWN FINDING (KNOWN_FINDINGS.txt, site dit.divergences.f_divergence.support-mismatch; dit not changed):
+            # f_divergence sums q f(p/q) over the outcomes
             # of the FIRST distribution only and lets nansum drop 0 * f(inf).  So (i) the terms q(x) f(0) for
             # outcomes in the second support but outside the first are missing unless f(0) = 0, and (ii) the terms
             # p(x) lim f(t)/t for outcomes in the first support but outside the second are missing unless that
             # limit is 0.  E.g. P = {a: 1/4, b: 3/4}, Q = {a: 1/4, b: 1/4, c: 1/2}: f(t) = |t-1|/2 gives 0.25
             # (total variation is 0.5); f(t) = t log2 t on (Q, P) gives -0.396 (D(Q||P) = +inf); disjoint supports
-            # give 0 for every f.  Exactly that input class is skipped here; everything else is judged.
+            # give 0 for every f.  Exactly that input class is put aside here and judged LAST by `fdiv_support_class`
+            # (after every other clause of the case, under its own site); everything else is judged here.
             if (only_q and f0 != 0) or (only_p and slope != 0):
-                r.features.append('fdiv-unjudged=%s' % name)
+                r.features.append('fdiv-support-class=%s' % name)
+                if defer is not None:
+                    defer.append((name, f, f0, slope))
                 continue
             with np.errstate(all='ignore'):
                 val = float(D.f_divergence(da, db, f, **kw))
@@ -374,6 +390,39 @@ class C06(object):
                 return False
         r.detail = dict(r.detail or {}, fdiv={k: list(v) for k, v in out.items()})
         return True
+
+    def fdiv_support_class(self, D, da, db, ta, tb, deferred, r, rvs=None):
+        """The input class of the known finding (see `fdiv_judge`): the call against the full textbook value
+        sum_{p,q>0} q f(p/q) + f(0) Q(p = 0) + lim f(t)/t P(q = 0) (+inf included).  Runs only when nothing else of the
+        case failed or disagreed, so that it cannot hide another clause; a failure gets its own site and mark."""
+        if r.bad() or not deferred:
+            return
+        keys = list(ta) + [k for k in tb if k not in ta]
+        pq = [(ta.get(k, Fraction(0)), tb.get(k, Fraction(0))) for k in keys]
+        mass_q = sum(qq for p, qq in pq if p == 0 and qq > 0)
+        mass_p = sum(p for p, qq in pq if p > 0 and qq == 0)
+        kw = {} if rvs is None else {'rvs': rvs}
+        where = '' if rvs is None else ' (rvs=%s)' % (rvs,)
+        show = lambda t: '{%s}' % ', '.join('%s: %s' % (''.join(str(x) for x in k), v) for k, v in t.items() if v > 0)
+        for name, f, f0, slope in deferred:
+            with np.errstate(all='ignore'):
+                val = float(D.f_divergence(da, db, f, **kw))
+                ref = 0.0
+                for p, qq in pq:
+                    if p > 0 and qq > 0:
+                        ref += float(qq) * float(f(float(p / qq)))
+            if mass_q > 0 and f0 != 0:
+                ref += float(mass_q) * f0
+            if mass_p > 0 and slope != 0:
+                ref += float(mass_p) * slope
+            if self.agree(val, ref):
+                r.features.append('fdiv-support-class-correct=%s' % name)
+                continue
+            r.oracle_fail = ('f_divergence%s with f = %s of P = %s from Q = %s (outcomes by rank) is %r; the f-divergence sum_x q f(p/q) with '
+                             'q f(0) where p = 0 and p lim f(t)/t where q = 0 is %r' % (where, name, show(ta), show(tb), val, ref))
+            r.site = 'dit.divergences.f_divergence.support-mismatch'
+            r.detail = dict(r.detail or {}, fdiv_support_mismatch=True, fdiv_f=name, fdiv_got=val, fdiv_textbook=ref)
+            return
 
     def run_pair(self, case, drv, r):
         dit = import_dit()
@@ -442,7 +491,8 @@ class C06(object):
         if r.oracle_fail:
             return
         # Csiszar f-divergences for a menu of f (the general entry point behind the named ones)
-        if not self.fdiv_judge(D, da, db, ta, tb, alpha, r, drv=drv):
+        fdeferred = []
+        if not self.fdiv_judge(D, da, db, ta, tb, alpha, r, drv=drv, defer=fdeferred):
             return
         # axioms
         kl_self = float(D.kullback_leibler_divergence(da, da))
@@ -486,6 +536,8 @@ class C06(object):
             mref = -min(mv[1:-1])
             if not r.mismatch and not math.isinf(ci) and not math.isinf(mref) and ci < mref - 1e-4 * max(1.0, mref):
                 r.mismatch = 'Chernoff information %r is below -objective(alpha) = %r of the model at a grid point' % (ci, mref)
+        # last: the input class of the known f_divergence finding (never when something else of this case is wrong)
+        self.fdiv_support_class(D, da, db, ta, tb, fdeferred, r)
 
     def emd_explicit(self, emd, da, db, atoms_a, atoms_b, r, descr):
         """earth_movers_distance(da, db, distances) for cost matrices handed over explicitly (rows: the stored outcomes
@@ -748,6 +800,7 @@ class C06(object):
         rvs, crvs = case['rvs'], case['crvs']
         r.nontrivial = len(ta) >= 2
         r.features.append('crvs=%d' % len(crvs))
+        fdeferred = []
 
         def marg(t, idx):
             m = {}
@@ -806,7 +859,7 @@ class C06(object):
         # the f-divergence restricted to rvs is the f-divergence of the marginals on rvs: against the definition on the
         # exact marginal tables, and against the call on the marginal distributions themselves
         if not r.oracle_fail and not crvs:
-            if not self.fdiv_judge(D, da, db, marg(ta, both), marg(tb, both), case['alpha'], r, rvs=rvs):
+            if not self.fdiv_judge(D, da, db, marg(ta, both), marg(tb, both), case['alpha'], r, rvs=rvs, defer=fdeferred):
                 return
             if ma_ is not None:
                 for name, f, _f0, _slope in self.fdiv_menu(case['alpha']):
@@ -823,6 +876,9 @@ class C06(object):
             mo = self.model_div(drv, 'kl', pairs)
             if not self.agree(gk, mo):
                 r.mismatch = 'restricted KL: impl %r model %r' % (gk, mo)
+        # last: the input class of the known f_divergence finding (never when something else of this case is wrong)
+        if not crvs:
+            self.fdiv_support_class(D, da, db, marg(ta, both), marg(tb, both), fdeferred, r, rvs=rvs)
 
     def run_maxcorr(self, case, drv, r):
         dit = import_dit()
